@@ -3,13 +3,13 @@
 import json, os, sys
 ROOT = os.path.dirname(os.path.dirname(os.path.abspath(__file__)))
 sys.path.insert(0, ROOT)
-from checks_config import CHECKS, HOOK_COMMITS, NOT_APPLICABLE  # noqa
+from checks_config import CHECKS, HOOK_COMMITS, NOT_APPLICABLE, CLAIMED  # noqa
 
 props = [json.loads(l)["id"] for l in open(os.path.join(ROOT, "properties.jsonl"))]
 checks = []
 for pid in props:
     c = CHECKS.get(pid)
-    if not c or not c.get("claimed", True):
+    if not c or pid not in CLAIMED:
         continue
     checks.append({
         "property_id": pid,
